@@ -96,7 +96,7 @@ def run(ctx):
     if not f:
         ctx.missing("C06.dispatch", "<Shape as ReadableShape>::read_from")
     else:
-        ps, _ = util.run_fn(F, f, inline=lambda g, t: "read_shape_content" not in g["def"])
+        ps, _ = util.run_fn(F, f, inline=lambda g, t: "read_shape_content" not in g["def"], summarise_pure=False)
         seen = set()
         for p in ps:
             ios = p.io()
@@ -153,7 +153,7 @@ def run(ctx):
     if not f:
         ctx.missing("C06.typed", "impl<S: ConcreteReadableShape> ReadableShape for S")
     else:
-        ps, _ = util.run_fn(F, f)
+        ps, _ = util.run_fn(F, f, summarise_pure=False)
         n_match = n_mis = 0
         for p in ps:
             ios = p.io()
@@ -212,7 +212,7 @@ def run(ctx):
             f = F.fns.get(m["key"])
             if not f:
                 continue
-            ps, _ = util.run_fn(F, f)
+            ps, _ = util.run_fn(F, f, summarise_pure=False)
             want_variant = wrap.get(ty)
             okv = None
             bad = []
